@@ -6,6 +6,7 @@ import EspadaVerif.Spec.Poker
 import EspadaVerif.Model.Showdown
 import EspadaVerif.Spec.ShowdownSpec
 import Driver.IterOp
+import Driver.TextOps
 
 namespace Driver
 open EspadaVerif
@@ -161,8 +162,13 @@ def specOp1 (op : String) (a : List String) : Option String :=
 def runOp (op : String) (a : List String) : String :=
   let m := match runOp1 op a with
     | some s => s
-    | none => s!"bad-op {op}"
-  match specOp1 op a with
+    | none => match textOp op a with
+      | some s => s
+      | none => s!"bad-op {op}"
+  let sp := match specOp1 op a with
+    | some s => some s
+    | none => textSpec op a
+  match sp with
   | some s => m ++ "\t" ++ s
   | none => m
 end Driver
